@@ -103,7 +103,7 @@ def run(ctx):
             writes = [c for c in san.body.calls() if c.args and ((c.args[0].get("move") or c.args[0].get("copy") or {}).get("l") is not None) and _points_to(b, c.args[0], res)]
             pushes = [c for c in writes if c.is_("String::push")]
             pstrs = [c for c in writes if c.is_("String::push_str")]
-            other = [c for c in writes if c not in pushes and c not in pstrs and not c.is_("String::with_capacity")]
+            other = [c for c in writes if c not in pushes and c not in pstrs and not c.is_("String::with_capacity", "String::reserve", "Deref::deref", "String::as_str", "String::len", "String::is_empty", "String::capacity", "String::as_bytes", "AsRef::as_ref", "Borrow::borrow")]  # read-only views of the result (an assertion about it) emit nothing
             ok_lit = all(const_str(arg_syms(c)[1]) in ESCAPES for c in pstrs) and not other
             bad_lit = [const_str(arg_syms(c)[1]) for c in pstrs if const_str(arg_syms(c)[1]) not in ESCAPES]
             chk.ob("C08.a", f"{san.path} [literal pushes]", ok_lit and pstrs, f"{len(pstrs)} push_str sites, each a complete escape from {sorted(ESCAPES)}" if ok_lit else f"a literal other than a complete escape is emitted: {bad_lit or [callee_method_name(c) for c in other]}", san.loc())
